@@ -241,6 +241,7 @@ class RC4Sys(HSystem):
 
 
 class StreamSys(HSystem):
+    depth = {'quick': 4, 'thorough': 5}
     """one Salsa20 / ChaCha object, ONE caller-owned nonce Bits object that is overwritten in place, and keystream
     generators that are held open while other requests run on the same object"""
 
